@@ -2218,7 +2218,7 @@ def iter_rfind(m, a, ci):
             return o
 
 
-@reg('DoubleEndedIterator::rposition')
+@reg('DoubleEndedIterator::rposition', 'Iterator::rposition')
 def iter_rposition(m, a, ci):
     it = get_iter(m, a[0])
     xs = drain(m, it)
